@@ -645,4 +645,39 @@ theorem gridAt_eq [Add α] [Sub α] [Mul α] [Div α] [Neg α] [NatCast α] [OfN
   simp only [Function.comp, gridSlimViaMask_eq, nfs_getD m hk']
   simp [List.getD_eq_getElem?_getD, hk']
 
+/-! ### the public `blurring_from` (used by C03 as well) -/
+
+theorem C10_blurring_spec (m : Mask) {kh kw : Nat} (hkh : kh % 2 = 1) (hkw : kw % 2 = 1)
+    {bm : Mask} (hbm : Impl.blurringFrom m kh kw = .ok bm) :
+    bm.h = m.h ∧ bm.w = m.w ∧ bm.WF ∧
+    ∀ qy qx, qy < m.h → qx < m.w →
+      (bm.get qy qx = false ↔
+        m.get qy qx = true ∧ ∃ p : Nat × Nat, p.1 < m.h ∧ p.2 < m.w ∧ m.get p.1 p.2 = false
+          ∧ Spec.inFootprint kh kw p (qy, qx)) := by
+  have hodd : (kh % 2 == 0 || kw % 2 == 0) = false := by simp [hkh, hkw]
+  unfold Impl.blurringFrom at hbm
+  simp only [hodd, Bool.false_eq_true, if_false] at hbm
+  cases hb : Impl.blurringBits m kh kw with
+  | none => rw [hb] at hbm; cases hbm
+  | some b =>
+    rw [hb] at hbm
+    cases hbm
+    obtain ⟨hlen, hget⟩ := blurringBits_spec m hkh hkw hb
+    exact ⟨rfl, rfl, hlen, fun qy qx hqy hqx => hget qy qx hqy hqx⟩
+
+/-- a successfully built blurring mask implies every footprint is inside the frame -/
+theorem blurringFrom_ok_inside (m : Mask) {kh kw : Nat} (hkh : kh % 2 = 1) (hkw : kw % 2 = 1)
+    {bm : Mask} (hbm : Impl.blurringFrom m kh kw = .ok bm) :
+    ∀ p : Nat × Nat, p.1 < m.h → p.2 < m.w → m.get p.1 p.2 = false →
+      Spec.footprintInside m.h m.w kh kw p := by
+  have hodd : (kh % 2 == 0 || kw % 2 == 0) = false := by simp [hkh, hkw]
+  unfold Impl.blurringFrom at hbm
+  simp only [hodd, Bool.false_eq_true, if_false] at hbm
+  cases hb : Impl.blurringBits m kh kw with
+  | none => rw [hb] at hbm; cases hbm
+  | some b =>
+    have := blurringBits_isSome_iff m hkh hkw
+    rw [hb] at this
+    exact this.mp rfl
+
 end Model
